@@ -186,9 +186,15 @@ def generate(rng, opts):
     if opts.get("no_known"):
         cfg["p_overload_impl"] = 0.0
     top = "mod" if placement == "single" else "pkg"
+    single_stubs_pkg = False
     if placement == "single":
         cfg["import_sources"] = ["ext"]
         modpaths = ["mod"]
+        if rng.random() < 0.35:
+            # the six / typing_extensions layout: a single-file module, its stubs in a `mod-stubs` package that
+            # also holds modules the runtime side does not have
+            single_stubs_pkg = True
+            modpaths += rng.sample(["mod.extra", "mod.moves"], rng.choice([1, 2]))
     else:
         modpaths = ["pkg", "pkg.a"]
         if rng.random() < 0.5:
@@ -205,6 +211,10 @@ def generate(rng, opts):
         has_st = r < 0.75
         if mp in ("pkg.c", "pkg.sub.d"):
             has_rt, has_st = (False, True) if rng.random() < 0.6 else (True, False)
+        if mp.startswith("mod."):
+            has_rt, has_st = False, True
+        if mp == "mod" and single_stubs_pkg:
+            has_rt, has_st = True, True
         if mp in ("pkg", "mod") and rng.random() < 0.8:
             has_st = True
         if has_rt and placement != "single" and mp != "pkg._impl" and rng.random() < cfg["p_star"]:
@@ -266,9 +276,9 @@ def generate(rng, opts):
     schedules = [{"base": b, "stub_first": sf} for b in chosen for sf in (False, True)]
     rng.shuffle(schedules)
     return {
-        "world": {"placement": placement, "top": top, "modules": modules, "compiled": compiled, "reexported_module": reexported_module, "stubs_other_sp": placement == "stubs_pkg" and rng.random() < 0.5, "stubs_sp_first": rng.random() < 0.5,
+        "world": {"placement": placement, "top": top, "modules": modules, "compiled": compiled, "reexported_module": reexported_module, "single_stubs_pkg": single_stubs_pkg, "stubs_other_sp": placement == "stubs_pkg" and rng.random() < 0.5, "stubs_sp_first": rng.random() < 0.5,
                   # looking for a <pkg>-stubs package is an option of the caller, whether or not one exists
-                  "find_stubs_package": placement == "stubs_pkg" or rng.random() < 0.3},
+                  "find_stubs_package": placement == "stubs_pkg" or single_stubs_pkg or rng.random() < 0.3},
         "schedules": schedules,
         "cfg": cfg,
     }
@@ -289,6 +299,15 @@ def render_world(world):
     sp0, sp1 = {}, {}
     placement = world["placement"]
     mods = world["modules"]
+    if world.get("single_stubs_pkg"):
+        # mod.py next to mod-stubs/__init__.pyi, mod-stubs/extra.pyi ... in the same search path
+        for mp, sides in mods.items():
+            if sides["rt"] is not None:
+                sp0["mod.py"] = pysrc.render_module(sides["rt"]["doc"], sides["rt"]["members"], stub=False)
+            if sides["st"] is not None:
+                rel = "mod-stubs/__init__.pyi" if mp == "mod" else f"mod-stubs/{mp.split('.', 1)[1]}.pyi"
+                sp0[rel] = pysrc.render_module(sides["st"]["doc"], sides["st"]["members"], stub=True)
+        return [sp0]
     pkgs = {mp for mp in mods if any(o.startswith(mp + ".") for o in mods)}
     if placement != "single":
         pkgs.add(world["top"])
@@ -460,7 +479,7 @@ def exp_world(world):
         else:
             # a module that only the stubs package has is added by the merge and marked unavailable at runtime; inside
             # the package itself a lone x.pyi is simply loaded as the module x
-            node = {"kind": "module", "doc": _doc(st["doc"]), "members": exp_container([], st["members"], nested_stub_only=True), "runtime": False if world["placement"] == "stubs_pkg" else ANY}
+            node = {"kind": "module", "doc": _doc(st["doc"]), "members": exp_container([], st["members"], nested_stub_only=True), "runtime": False if world["placement"] == "stubs_pkg" or world.get("single_stubs_pkg") else ANY}
         if rt is not None and any(m.get("guard") for m in _all_members(rt["members"])):
             node["members"].setdefault("TYPE_CHECKING", {"kind": "alias", "target": "typing.TYPE_CHECKING", "runtime": ANY})
         if st is not None and any(m["k"] == "overloads" for m in _all_members(st["members"])):
